@@ -10,7 +10,7 @@ use gluon::{
     vm::{
         api::{CPrimitive, Getable, Hole, OpaqueValue, Pushable},
         stack,
-        thread::{RootedThread, Status, Thread, ThreadInternal},
+        thread::{RootedThread, Status, Thread, ThreadInternal, reset_stack_after_error},
         types::{VmIndex, VmInt},
     },
 };
@@ -91,12 +91,17 @@ pub unsafe extern "C" fn glu_load_script(
 
 #[unsafe(no_mangle)]
 pub extern "C" fn glu_call_function(thread: &Thread, args: VmIndex) -> Error {
+    let level = thread.context().frame_level();
     match block_on(future::poll_fn(|cx| {
         let context = thread.context();
         thread.call_function(cx, context, args)
     })) {
         Ok(_) => Error::Ok,
-        Err(_) => Error::Unknown,
+        Err(err) => {
+            // The failed call must not leave its frames behind
+            reset_stack_after_error(thread, level, err);
+            Error::Unknown
+        }
     }
 }
 
